@@ -44,3 +44,6 @@ H("G-CURSORENC", "cursor_display_format", "C19", "counter 0..=9, one-byte actor 
   "Display = ['-' iff Before] counter '@' lowercase hex of the actor", unwindset=UW_TINYVEC, timeout=600)
 H("G-EXID", "exid_identity_ignores_hint", "C19 C30", "two ids: ANY u64 counters, one-byte actors of ANY value, ANY usize hints; unwind 6 (tinyvec default loop 18)",
   "== <=> same counter and actor (the replica-local hint is ignored); Ord = (counter, actor) and agrees with ==; Root least", unwindset=UW_TINYVEC + [(r"^memcmp\.", 4)], timeout=600)
+H("G-IDCONV", "idconv_import_obj_total", "C15 C37", "every string `d@xy`: d a decimal digit, x and y ANY ASCII bytes; document with actor table [0x33]; unwind 8 (tinyvec default loop 18)",
+  "import_obj returns Ok exactly for the hex of a known actor and an error otherwise; a non-hex / odd-length actor part is reported, never unwrapped",
+  unwindset=UW_TINYVEC, tier="thorough", timeout=1800, native_grid="replay_grid_idconv_import_obj")
